@@ -34,13 +34,16 @@ func main() {
 				code = r.Finish()
 			}
 		}()
-		p, err := load.Load(*repo, true)
-		if err != nil {
-			r.Fatal("load: " + err.Error())
-			return r.Finish()
+		ctx := &engines.Ctx{R: r, Tier: *tier, Repo: *repo, Verif: *verif}
+		if !engines.NoGo[*prop] {
+			p, err := load.Load(*repo, true)
+			if err != nil {
+				r.Fatal("load: " + err.Error())
+				return r.Finish()
+			}
+			r.Count("packages_loaded", len(p.Pkgs))
+			ctx.P = p
 		}
-		r.Count("packages_loaded", len(p.Pkgs))
-		ctx := &engines.Ctx{P: p, R: r, Tier: *tier, Repo: *repo, Verif: *verif}
 		eng(ctx)
 		return r.Finish()
 	}()
